@@ -11,7 +11,7 @@
 (* from the observed inputs; the operational model (ProxyOper) is compared  *)
 (* with what the code did only as a warning.                                *)
 (***************************************************************************)
-EXTENDS ProxyOper, ProxyJudge, Json, IOUtils
+EXTENDS ProxyOper, ProxyJudge, ConfigOps, Json, IOUtils
 
 CONSTANT Focus
 Trace == ndJsonDeserialize(IOEnv.TRACE_FILE)
@@ -22,7 +22,7 @@ tvars == <<l, cfg, learned>>
 ResolvOf(e) == IF "hosts" \in DOMAIN cfg THEN HostTable(cfg.hosts.svc, cfg.hosts.global) @@ e.resolv ELSE e.resolv
 EnvOf(e) ==
     LET P == cfg.proxies[e.pi] IN
-    [ keep |-> cfg.keep, names |-> cfg.names, static |-> cfg.static, resolv |-> ResolvOf(e), rx |-> e.rx, tohost |-> e.tohost,
+    [ keep |-> (IF "keep_cfg" \in DOMAIN cfg THEN EffKeep(cfg.keep_cfg) ELSE cfg.keep), names |-> cfg.names, static |-> cfg.static, resolv |-> ResolvOf(e), rx |-> e.rx, tohost |-> e.tohost,
       L |-> cfg.all[e.lid], trans |-> [i \in DOMAIN P.trans |-> cfg.all[P.trans[i]]], all |-> cfg.all,
       mustrr |-> P.mustrr, recv |-> P.recv, src |-> e.src, learned |-> learned, pool |-> Range(e.pool) ]
 
